@@ -56,6 +56,10 @@ T_C08 == /\ P!KidsFirst(Log, Issued, Events, TRUE)
 T_C08_KidsFirst_strict == P!KidsFirst(Log, Issued, Events, FALSE)
 T_C08_NotDoneEarly_strict == P!NotDoneEarly(Log, Done, Issued, Events, FALSE)
 T_C13 == P!ChainAlways(Log)
+(* lifecycle events the harness can count on its own, whatever way the races went: one ActorDuplicateIdEvent per spawn
+   that found its id registered (Engine.Spawn and Context.SpawnChild alike), ActorRestartedEvents numbered 1, 2, ... *)
+T_C12 == /\ Cardinality({i \in 1..Len(Events) : Events[i].e = "DuplicateId"}) = R.dupspawns
+         /\ (R.respawns = 0 => P!RestartsNumbered(Events))
 T_C10 == /\ P!LiveResolvable(Log) /\ P!IncOrder(Log) /\ P!AtMostOnce(Log) /\ P!InOrder(Log)
          /\ R.witness      \* a live actor whose id merely extends a model actor's id still answers
          /\ Cardinality({i \in 1..Len(Events) : Events[i].e = "DuplicateId"}) = R.dupspawns
